@@ -21,7 +21,7 @@ RULE = ("histories of Put/Get/Remove run on a staged copy of /repo/internal/mapl
         "length 30..60 over universes of 3..20 int keys (incl. 0 = the head's zero key, +-2^31) and string keys, natural and "
         "reversed order traits (ord.Int, ord.From, ord.String, a custom Ord), in 8 scenarios: mixed, ascending inserts, descending "
         "inserts, duplicate inserts, tall nodes (heights up to levels, removing the tallest), removing the last/first key, "
-        "absent keys, hostile Int63. Thorough: every history of length 5, 3000 of length 7, 640 random histories of length "
+        "absent keys, hostile Int63. Thorough: every history of length 5, 3000 of length 7, 320 random histories of length "
         "200..400 over up to 64 keys. After every operation: Get of every key of the universe and the parsed String(). A case is "
         "distinct by its (key type, order, universe, operations with Int63 values); every case is non-trivial (>= 1 operation)")
 TRUSTED = [
@@ -295,15 +295,16 @@ def shrink(ctx, c):
         t = rerun([cur["steps"][:bad[0] + 1]])[0]
         if failing(t):
             cur = t
-    # rounds: all single deletions in one harness run, keep the first that still fails
-    for _ in range(10):
+    # ddmin-like: drop chunks of n/2, n/4, .. 1 operations; all candidates of one granularity in one harness run
+    chunk = max(1, len(cur["steps"]) // 2)
+    rounds = 0
+    while chunk >= 1 and rounds < 60 and len(cur["steps"]) > 1:
+        rounds += 1
         n = len(cur["steps"])
-        if n <= 1:
-            break
-        res = rerun([cur["steps"][:i] + cur["steps"][i + 1:] for i in range(n)])
+        res = rerun([cur["steps"][:i] + cur["steps"][i + chunk:] for i in range(0, n, chunk)])
         nxt = None
         for t in res:
-            if failing(t):
+            if t["steps"] and failing(t):
                 b = _oracle(t)
                 if b[0] + 1 < len(t["steps"]):
                     t = dict(t)
@@ -311,8 +312,10 @@ def shrink(ctx, c):
                 nxt = t
                 break
         if nxt is None:
-            break
-        cur = nxt
+            chunk //= 2
+        else:
+            cur = nxt
+            chunk = min(chunk, max(1, len(cur["steps"]) // 2))
     _SHRUNK[sig0] = cur
     return cur
 
